@@ -109,6 +109,8 @@ pub enum Input {
     Line { enc: Enc, api: Api, dir: Dir, text: Vec<u32>, ds: Option<DsSpec>, para: usize, a: usize, b: usize },
     Rv { levels: Vec<u8> },
     BaseDir { enc: Enc, text: Vec<u32>, ds: Option<DsSpec> },
+    /// stage outputs of the first paragraph through the cfg-guarded hooks
+    Stage { enc: Enc, dir: Dir, text: Vec<u32>, ds: Option<DsSpec> },
     U16 { units: Vec<u32>, ops: String },
     Lvl { l: u8 },
     U8 { n: u8 },
@@ -296,6 +298,12 @@ pub fn parse_line(line: &str) -> Option<(String, String, Input)> {
         "rv" => Input::Rv { levels: parse_numlist(key(&f, "LV")) },
         "basedir" => Input::BaseDir {
             enc: parse_enc(key(&f, "enc")),
+            text: parse_hexlist(key(&f, "T")),
+            ds: parse_ds(key(&f, "DS")),
+        },
+        "stage" => Input::Stage {
+            enc: parse_enc(key(&f, "enc")),
+            dir: parse_dir(key(&f, "dir")),
             text: parse_hexlist(key(&f, "T")),
             ds: parse_ds(key(&f, "DS")),
         },
@@ -556,6 +564,53 @@ pub fn run_line(enc: Enc, api: Api, dir: Dir, text: &[u32], ds: &Option<DsSpec>,
     Some(LineCtx { analysis, out })
 }
 
+#[cfg(unicode_bidi_verif)]
+fn stage_generic<'a, T: TextSource<'a> + ?Sized, D: BidiDataSource>(
+    ds: &D,
+    text: &'a T,
+    classes: &[BidiClass],
+    para_level: Level,
+) -> String {
+    use unicode_bidi::verif_hooks as h;
+    use unicode_bidi::LevelRunVec;
+    let n = TextSource::len(text);
+    let has_iso = classes.iter().any(|c| matches!(c, BidiClass::RLI | BidiClass::LRI | BidiClass::FSI));
+    let mut levels = vec![para_level; n];
+    let mut pcs = classes.to_vec();
+    let mut runs = LevelRunVec::new();
+    h::explicit_compute(text, para_level, classes, &mut levels, &mut pcs, &mut runs);
+    let xl = levels_str(&levels);
+    let xp = classes_str(&pcs);
+    let xr = runs.iter().map(|r| format!("{}:{}", r.start, r.end)).collect::<Vec<_>>().join(";");
+    let mut seqs = h::IsolatingRunSequenceVec::new();
+    h::isolating_run_sequences(para_level, classes, &levels, runs, has_iso, &mut seqs);
+    let sq = seqs
+        .iter()
+        .map(|s| {
+            format!(
+                "{},{},{}",
+                s.runs.iter().map(|r| format!("{}:{}", r.start, r.end)).collect::<Vec<_>>().join("+"),
+                class_name(s.sos),
+                class_name(s.eos)
+            )
+        })
+        .collect::<Vec<_>>()
+        .join("|");
+    let mut w = vec![];
+    let mut nn = vec![];
+    for seq in &seqs {
+        h::resolve_weak(text, seq, &mut pcs);
+        w.push(classes_str(&pcs));
+        h::resolve_neutral(text, ds, seq, &levels, classes, &mut pcs);
+        nn.push(classes_str(&pcs));
+    }
+    h::resolve_levels(&pcs, &mut levels);
+    format!(
+        "HASISO={} XL={} XP={} XR={} SQ={} W={} N={} FL={}",
+        has_iso as u8, xl, xp, xr, sq, w.join(";"), nn.join(";"), levels_str(&levels)
+    )
+}
+
 /// std-only lossy segmentation of UTF-16 (independent of the crate):
 /// (start, scalar, len)
 pub fn lossy_segments(units: &[u16]) -> Vec<(usize, u32, usize)> {
@@ -695,6 +750,58 @@ pub fn run(id: &str, mode: &str, input: &Input) -> String {
                     q, dir_str(&d), dir_str(&df), classes_str(&an.classes), paras_str(&an.paras)
                 ),
                 _ => format!("{} => PANIC", q),
+            }
+        }
+        Input::Stage { enc, dir, text, ds } => {
+            let q = format!("{} stage enc={} dir={} T={} DS={}", head, enc_tag(*enc), dir.tag(), hexlist(text), ds_str(ds));
+            #[cfg(unicode_bidi_verif)]
+            {
+                let hd = HardcodedBidiData;
+                let r = guard(|| match enc {
+                    Enc::U8 => {
+                        let s = to_string8(text);
+                        let (cl, ps) = match ds {
+                            None => { let ii = InitialInfo::new_with_data_source(&hd, &s, dir.level()); (ii.original_classes, ii.paragraphs) }
+                            Some(spec) => { let ii = InitialInfo::new_with_data_source(&CustomDs::new(spec), &s, dir.level()); (ii.original_classes, ii.paragraphs) }
+                        };
+                        match ps.first() {
+                            None => "EMPTY".to_string(),
+                            Some(p) => {
+                                let sub = &s[p.range.clone()];
+                                let c = &cl[p.range.clone()];
+                                let body = match ds {
+                                    None => stage_generic(&hd, sub, c, p.level),
+                                    Some(spec) => stage_generic(&CustomDs::new(spec), sub, c, p.level),
+                                };
+                                format!("PR={}:{} PL={} C={} {}", p.range.start, p.range.end, p.level.number(), classes_str(c), body)
+                            }
+                        }
+                    }
+                    Enc::U16 => {
+                        let s = to_units16(text);
+                        let (cl, ps) = match ds {
+                            None => { let ii = utf16::InitialInfo::new_with_data_source(&hd, &s, dir.level()); (ii.original_classes, ii.paragraphs) }
+                            Some(spec) => { let ii = utf16::InitialInfo::new_with_data_source(&CustomDs::new(spec), &s, dir.level()); (ii.original_classes, ii.paragraphs) }
+                        };
+                        match ps.first() {
+                            None => "EMPTY".to_string(),
+                            Some(p) => {
+                                let sub = &s[p.range.clone()];
+                                let c = &cl[p.range.clone()];
+                                let body = match ds {
+                                    None => stage_generic(&hd, sub, c, p.level),
+                                    Some(spec) => stage_generic(&CustomDs::new(spec), sub, c, p.level),
+                                };
+                                format!("PR={}:{} PL={} C={} {}", p.range.start, p.range.end, p.level.number(), classes_str(c), body)
+                            }
+                        }
+                    }
+                });
+                format!("{} => {}", q, or_panic(r))
+            }
+            #[cfg(not(unicode_bidi_verif))]
+            {
+                format!("{} => NOHOOKS", q)
             }
         }
         Input::U16 { units, ops } => {
